@@ -44,7 +44,8 @@ def oracle(script: dict, run: Any) -> List[Violation]:
     tol = TOL_US + 50_000 * int(run.fault_counts.get("cpu_stall", 0))       # every counted CPU stall may add up to 50 ms
     # ---------------------------------------------------------------- (a) poll instants
     minute0 = start - start % MIN
-    expected = [start]
+    # `taskiq scheduler --skip-first-run` waits for the next minute boundary before its first poll (documented option)
+    expected = [] if script.get("entry") == "cli_skip" else [start]
     b = minute0 + MIN
     while b < end - 1_000_000:
         expected.append(b)
@@ -166,7 +167,8 @@ def probes(script: dict, run: Any) -> Dict[str, int]:
     res = {"cron_sent": 0, "oneshot_sent": 0, "oneshot_boundary_window": 0, "oneshot_already_past": 0, "source_failed_once": int(bool(h.kind("list_fail"))),
            "send_failed_once": int(bool(h.kind("kick_fail"))), "label_source": int(any(s["kind"] == "label" for s in script["sources"])),
            "added_between_polls": int(bool(h.kind("op_add"))), "long_horizon": int(script["horizon_us"] > 20 * MIN),
-           "start_on_boundary": int(script["start"]["epoch_us"] % MIN == 0), "entry_task": int(script.get("entry") == "task")}
+           "start_on_boundary": int(script["start"]["epoch_us"] % MIN == 0), "entry_task": int(script.get("entry") == "task"), "entry_cli": int(script.get("entry") in ("cli", "cli_skip")),
+           "skip_first_run": int(script.get("entry") == "cli_skip")}
     for e in h.kind("kick_call"):
         sp = specs.get(e[4]["marker"])
         if sp is None:
